@@ -176,6 +176,9 @@ def filter_property(prop, tier, seed, replay=None):
             if viol is None and a['history'] != 'same':
                 viol = ('one built filter gave different answers for the same documents before and after it was applied to documents it cannot evaluate: %s' % a['history']
                         if a['history'] != 'P' else 'applying a built filter to unevaluable documents panicked')
+            if viol is None and a['concurrent'] != 'same':
+                viol = ('one built filter, applied from four goroutines while another filter is evaluated, %s' %
+                        ('panicked' if a['concurrent'] == 'panic' else 'gave answers that differ from the ones it gives alone'))
             if viol is None and prop == 'C14':
                 if a['tokens'] is None or 'PANIC' in a['ast'] or 'P' in a['verdicts'] or 'P' in a['search']:
                     viol = 'building or applying the filter panicked'
